@@ -6,6 +6,7 @@ From Coq Require Import List ZArith Bool Lia Permutation.
 From RecordUpdate Require Import RecordUpdate.
 From GB Require Import Model.Allowance Model.Batcher Proofs.Tactics Proofs.C01Inv Proofs.BatcherLocal
   Proofs.BatcherLocal2 Proofs.BatcherInv2 Proofs.BatcherInv3.
+From GB Require Import Proofs.OrderInv Proofs.ProgressInv.
 Import ListNotations.
 Open Scope Z_scope.
 (* V2 (after the repair of D5): any positive capacity and a flush interval of at least 1 ms give an allowance of at least one unit *)
@@ -60,6 +61,24 @@ Theorem C08_freed_slot_wakes_one_waiter : forall s i x r, waiting s = x :: r -> 
 Proof. intros s i x r W. unfold remove_at, signal_one. simpl. rewrite W. simpl. split; reflexivity. Qed.
 Print Assumptions C08_freed_slot_wakes_one_waiter.
 
+
+(* bounded progress without a slot limit (and in V1): operations are served in turn.  rank is 1 + the position in the
+   buffer (0: not there), taken_total the number of operations taken out of the buffer so far.  From a state in which
+   the operation with call number id is buffered at position i, in every execution, once i + 1 further operations
+   have been taken the operation has left the buffer (delivered to a batch, or dropped by a V2 shutdown).  With
+   C08_head_progress (a cycle with an allowance takes at least the head) an accepted operation waits at most as
+   many such cycles as there are operations in front of it. *)
+Theorem C08_served_in_turn : forall c id ls s s' os i,
+  fifo c = true -> reachable c s -> pos_id id (buffer s) = Some i -> run c s ls = Some (s', os) ->
+  (taken_total s + i + 1 <= taken_total s')%nat -> pos_id id (buffer s') = None.
+Proof. exact served_in_turn. Qed.
+Print Assumptions C08_served_in_turn.
+
+Theorem C08_position_never_grows : forall c id ls s s' os,
+  fifo c = true -> reachable c s -> In id (ids (g_inserted s)) -> run c s ls = Some (s', os) ->
+  rank id s' = 0%nat \/ (rank id s' + taken_total s' <= rank id s + taken_total s)%nat.
+Proof. exact fifo_progress. Qed.
+Print Assumptions C08_position_never_grows.
 
 (* a listener that takes its time (user code called from the loop): while it runs the loop does nothing else, time
    cannot pass the instant at which it returns, and at that instant the loop is idle again with every pending flush
